@@ -233,7 +233,7 @@ def _apply(client: H2Client, a: int, state: dict) -> None:
     thorough_split={"z1": "each", "wi": "each", "a0": "each"},
     witnesses=[{"n": 2, "z1": 3, "z3": 2, "chunks": 1, "wi": 1, "k": 1, "a0": 1, "a1": 3, "a2": 6, "a3": 0, "a4": 0},
                {"n": 1, "z1": 2, "z3": 0, "chunks": 3, "wi": 0, "k": 2, "a0": 4, "a1": 3, "a2": 0, "a3": 0, "a4": 0}],
-    budget={"quick": 200, "thorough": 1800},
+    budget={"quick": 280, "thorough": 1800},
     per_path=120,
     bounds="1..2 (thorough 3) concurrent streams, response sizes from {0,100,16385,70000} (thorough also 1, 16384) written in 1 or 3 chunks (thorough 1..3), client initial window from {0,1,100,65535}, then a sequence of 0..2 (thorough 4; quick two-stream sessions 0..1) client control actions from 10 kinds (WINDOW_UPDATE stream/connection small/large, SETTINGS initial window up/down, PRIORITY exclusive/weight, RST_STREAM), finally all windows opened",
     encodes=["hypercorn/protocol/h2.py::H2Protocol.send_task", "hypercorn/protocol/h2.py::H2Protocol._send_data", "hypercorn/protocol/h2.py::H2Protocol._window_updated",
